@@ -364,10 +364,27 @@ func process(fi fileInfo, src string, tw *traceWriter, st *stats, nextID *int) (
 	}
 	used := map[string]int{}
 	goCursor := 0
+	// number of top-level declarations starting on each source line
+	startLines := map[uint32]int{}
+	for _, h := range tf.Header {
+		startLines[h.Expression.Range.From.Line]++
+	}
+	for _, n := range tf.Nodes {
+		switch n := n.(type) {
+		case parser.HTMLTemplate:
+			startLines[n.Range.From.Line]++
+		case parser.CSSTemplate:
+			startLines[n.Range.From.Line]++
+		case parser.ScriptTemplate:
+			startLines[n.Range.From.Line]++
+		case parser.TemplateFileGoExpression:
+			startLines[n.Expression.Range.From.Line]++
+		}
+	}
 	symEvent := func(what string, name string, rng parser.Range, value string) {
 		*nextID++
 		st.syms++
-		ev := map[string]any{"k": "s", "id": *nextID, "f": fi.ID, "what": what, "name": name}
+		ev := map[string]any{"k": "s", "id": *nextID, "f": fi.ID, "what": what, "name": name, "sl": b2i(startLines[rng.From.Line] > 1)}
 		t, found := sm.SymbolTargetRangeFromSource(rng.From.Line, rng.From.Col)
 		ev["found"] = b2i(found)
 		// the generated declaration, located independently of the source map
